@@ -10,11 +10,13 @@ cd $W || exit 2
 git checkout -q -- . ; git clean -fdq -e seeded
 PKG=$(head -3 $S/demo_test.go.txt | grep -o -E '\./[a-z/]+/' | head -1)
 [ -z "$PKG" ] && PKG=./lnwallet/
-RUN=$(grep -o -E 'func (Test[A-Za-z0-9_]+)' $S/demo_test.go.txt | head -1 | sed 's/func //')
+RUN=$(grep -o -E 'func (Test[A-Za-z0-9_]+)' $S/demo_test.go.txt | sed 's/func //' | paste -sd'|')
+TAGS=""
+head -12 $S/demo_test.go.txt | grep -q "test_db_sqlite" && TAGS="-tags test_db_sqlite"
 cp $S/demo_test.go.txt $W/$PKG/zz_seeded_demo_test.go
-r0=$(timeout 900 go test -vet=off -count=1 -run "^$RUN\$" $PKG 2>&1 | tail -1)
+r0=$(timeout 900 go test -vet=off -count=1 $TAGS -run "^($RUN)\$" $PKG 2>&1 | tail -1)
 git apply $S/patch.diff || { echo "patch does not apply"; exit 2; }
-r1=$(timeout 900 go test -vet=off -count=1 -run "^$RUN\$" $PKG 2>&1 | grep -E "^(ok|FAIL|---)" | tr '\n' ' ')
+r1=$(timeout 900 go test -vet=off -count=1 $TAGS -run "^($RUN)\$" $PKG 2>&1 | grep -E "^(ok|FAIL|---)" | tr '\n' ' ')
 git checkout -q -- . ; git clean -fdq -e seeded
 echo "$ID clean: $r0 | patched: $r1"
 cp $S/patch.diff $S/demo_test.go.txt $S/meta.json $OUT/
